@@ -139,6 +139,15 @@ class BloomDriver:
             self.keys.append(k)
             self.count += 1
             ctx.op("add", op[1] % len(self.pool), force)
+        elif kind == "bulk":
+            n = 5 + op[1] % 40
+            for i in range(n):
+                k = "bulk-%d-%d" % (len(self.keys), i)
+                ctx.call(anyo, o.add, k)
+                self.keys.append(k)
+                self.count += 1
+            self.events.add("bulk")
+            ctx.op("bulk", n)
         elif kind == "push":
             if self.kind != "expanding":
                 return self.step(["add", op[1] if len(op) > 1 else 0])
@@ -329,7 +338,7 @@ def case_strategy(tier, kinds=("bloom", "ondisk", "expanding"), hashes=None, max
             est, fpr = draw(gen.bloom_geom_st(big=big))
         op = st.one_of(
             st.tuples(st.just("add"), idx), st.tuples(st.just("add"), idx), st.tuples(st.just("add"), idx),
-            st.tuples(st.just("addf"), idx),
+            st.tuples(st.just("addf"), idx), st.tuples(st.just("bulk"), st.integers(0, 39)),
             st.tuples(st.just("push"), idx),
             st.tuples(st.just("clear")),
             st.tuples(st.just("reload"), st.integers(0, 5)),
